@@ -1,0 +1,23 @@
+//go:build verif
+// +build verif
+
+package service
+
+import (
+	"com.tuntun.rangers/node/src/common"
+	"com.tuntun.rangers/node/src/storage/account"
+)
+
+// Verification hooks for property C20 (build tag verif only): thin exports of
+// unexported accessors; no behaviour of their own.
+
+// VerifMinerIterator returns the registry iterator the manager itself uses
+// (GetMinerIdByAccount, GetProposerTotalStakeWithDetail, ...) over the given state.
+func (mm *MinerManager) VerifMinerIterator(minerType byte, accountdb *account.AccountDB) *MinerIterator {
+	return mm.minerIterator(minerType, accountdb)
+}
+
+// VerifRefundAddress returns the escrow account that holds the refunds due at height.
+func (refund *RefundManager) VerifRefundAddress(height uint64) common.Address {
+	return refund.generateAddress(height)
+}
